@@ -23,15 +23,48 @@
 
   STATUS.  Proved as stated, for all three kinds of objects: `C11_index_ready`, `C11_timeout`,
   `C11_short_circuit`, `C11_cleanup` (+ `C11_cleanup_ret`), `C11_mutex` (+ `C11_mutex_marks`), `C11_heap_path`.
-  * `C11_no_oversleep`: NOT PROVED (no partial result); the statement is kept as `C11_no_oversleep_full`.
-    Missing: an accounting invariant for the call's semaphore (every cleared `waiting` is followed by a V
-    that is only consumed by the owner's own `pd_ret`, and a scan that sees a cleared record does not sleep).
+  * `C11_no_oversleep` (safety form of "it does not keep sleeping after one becomes ready"), proved:
+    there is no reachable state in which a caller is about to enter / inside the P of wait.c:78 while an object
+    it is registered on is ready for it and nobody is going to end the sleep.  Precisely, for a caller t at the
+    P (`atP`: `pd_enter` next, or between `pd_enter` and `pd_ret`), a record r = nw[i] of the call and object i
+    ready for it (`becameReady`: note notified or its deadline passed; counter at 0; cv record no longer on
+    pcv->waiters — at the P only a signaller can have unlinked it, `C11_cv_unlinked_by_waker`), one of:
+      (A) `Tok`       a token is available on the call's semaphore — under the counting flavour (`sem j > 0`)
+                      AND under the binary flavour (`binSem evs j`, a function of the event sequence: V sets,
+                      a P that returns 0 clears, a second V is absorbed); only t's own `pd_ret` consumes
+                      tokens of a bound semaphore, so the P returns at once;
+      (B) `InFlight`  some waker has executed its store `waiting := 0` on one of t's records and owes the V on
+                      t's semaphore (`post u = some r'`): the acceptor rejects its unlock of the object's mutex,
+                      a further pop, and its return from nsync_cv_signal / broadcast before that V, and the V
+                      binds to (is checked against) the semaphore of t's call;
+      (C)             a cv signaller has unlinked r under the cv spinlock and is before its
+                      `ATM_STORE_REL (&p_nw->waiting, 0)` in wake_waiters (`r ∈ pend …`), which (B) follows;
+      (D)             r is still queued on the ready note / counter and some thread u holds the object's mutex —
+                      the acceptor rejects the release of that mutex before r (and every other queued waiter)
+                      has been popped and posted: u is inside its wake loop.  (`u ≠ t` is not part of the
+                      statement: threads in foreign API code are accepted site-independently, so the model cannot
+                      exclude a caller that took a note's internal mutex before the call; nsync has no such path.)
+      (E)             the P is timed and its deadline `min_ntime` has passed (the lazy expiry of a note: nobody
+                      posts, but `min_ntime <= expiry <= now`, `C11_sleep_deadline`), so the P returns ETIMEDOUT.
+    None of (B)–(E) can be dropped: `Example.oversleepB / C / D / E` are accepted traces that end in a state
+    satisfying the hypotheses in which no token is available (`¬ Tok` is part of the examples for C, D, E) and
+    that disjunct is the one that holds; `Example.oversleepA` is the token case (object ready between the caller's scan and its P: the P returns at once).
+    Core of the proof (`C11_cleared_accounted`): at the P, EVERY record of the call with `waiting = 0` has (A) or
+    (B) (as a theorem about `Reachable` states, in the form the earlier `C11_no_oversleep_full` had:
+    `C11_no_oversleep_token`) — the scan that precedes the P would have seen it (`ready_time <= 0` ⇒ no P)
+    unless it was cleared after its `ready_time` evaluation, and then the waker's post is accounted for.  Late V's after the return
+    (`Example.lateV`) and stale tokens only cause additional scans.
+  * `C11_sleep_deadline`, proved: the P of wait.c:78 is called with `min_ntime`, which is after time zero, is
+    `<= abs_deadline` and `<=` the expiry of every note of the call, and equals one of them (condition variables
+    and counters have no ready time other than "now").
+  Invariants: Proofs/WaitNSem*.lean (`inv_of_run`); no ghost field was added to the model.
   The interleaving of defect F3 (caller times out between a signaller's unlink and its `waiting := 0`) is an
   `example` below: the old behaviour (cv_dequeue "removes" the record and reports a timeout) is REJECTED,
   the repaired behaviour (wait for the waker, return the cv's index) is accepted.
 -/
 import NsyncVerif.Proofs.WaitNAnn
 import NsyncVerif.Proofs.WaitNDq2
+import NsyncVerif.Proofs.WaitNSem14
 
 set_option linter.unusedVariables false
 
@@ -298,11 +331,178 @@ theorem C11_cleanup_ret {s s' : State} {t : Tid} {i : Nat} {nested : Bool} (hr :
   have := C11_cleanup hr hs hlive hdead
   exact ⟨this.2.2.1, this.2.2.2.1, this.2.2.2.2⟩
 
-/-- FULL statement of the oversleep property (NOT PROVED): a caller asleep in the semaphore whose call has a
-    record with `waiting = 0` has a token to consume, or a waker is about to post it. -/
-def C11_no_oversleep_full : Prop :=
-  ∀ (s : State) (t : Tid) (j : SemId), Reachable s → s.pc t = .wPdWait j →
-    (∃ r ∈ (s.fr t).recs, (s.rcd r).waiting = false) → 0 < s.sem j ∨ ∃ u r, s.post u = some r ∧ r ∈ (s.fr t).recs
+/-! ### the sleep -/
+
+/-- t is about to call (`pd_enter` is its next semaphore event), or is inside, the
+    nsync_mu_semaphore_p_with_deadline of wait.c:78 -/
+def atP (s : State) (t : Tid) : Prop := s.pc t = .wPdEnter ∨ ∃ j, s.pc t = .wPdWait j
+
+/-- object i of t's call is ready for t's record r = nw[i]: the note is notified or its deadline has passed, the
+    counter is at zero, the cv record is no longer on pcv->waiters -/
+def becameReady (s : State) (t : Tid) (i : Nat) (r : Rid) : Prop :=
+  match (s.fr t).objs[i]? with
+  | some (.note n) => (s.obj (.note n)).flag = true ∨ expiredB (s.obj (.note n)).expiry s.now = true
+  | some (.ctr c) => (s.obj (.ctr c)).value = 0
+  | some (.cv c) => r ∉ (s.obj (.cv c)).queue
+  | none => False
+
+theorem inSleep_of_atP {s : State} {t : Tid} (h : atP s t) : inSleep (s.pc t) = true := by
+  rcases h with h | ⟨j, h⟩ <;> rw [h] <;> rfl
+
+theorem seen_atP {s : State} {t : Tid} {i : Nat} (hr : Reachable s) (h : atP s t) : ¬ Seen s (s.pc t) (s.fr t) i := by
+  have hl := linv_of_reachable hr t
+  intro hs
+  rcases h with h | ⟨j, h⟩ <;> rw [h] at hl hs <;>
+    (rcases hs with h1 | h1
+     · rw [hl.2] at h1; cases h1
+     · exact h1)
+
+/-- At the P, every record of the call whose `waiting` is 0 is accounted for: a token is available on the
+    call's semaphore (counting and binary flavour), or the V is the next semaphore operation of a waker. -/
+theorem C11_cleared_accounted {evs : List Event} {s : State} {t : Tid} {i : Nat} {r : Rid}
+    (hrun : run init evs = .ok s) (hp : atP s t) (hr : (s.fr t).recs[i]? = some r)
+    (hw : (s.rcd r).waiting = false) : Tok s (binSem evs) t ∨ InFlight s t := by
+  have ti := (inv_of_run evs s hrun).2 t
+  rcases ti.os (inSleep_of_atP hp) i r hr hw with h | h | h
+  · exact .inl h
+  · exact .inr h
+  · exact absurd h (seen_atP ⟨evs, hrun⟩ hp)
+
+/-- The statement that earlier versions of this file kept as the definition `C11_no_oversleep_full`: a caller
+    asleep in the semaphore whose call has a record with `waiting = 0` has a token to consume, or a waker is
+    about to post it. -/
+theorem C11_no_oversleep_token {s : State} {t : Tid} {j : SemId} (hr : Reachable s) (hpc : s.pc t = .wPdWait j)
+    (h : ∃ r ∈ (s.fr t).recs, (s.rcd r).waiting = false) :
+    0 < s.sem j ∨ ∃ u r, s.post u = some r ∧ r ∈ (s.fr t).recs := by
+  obtain ⟨evs, hrun⟩ := hr
+  obtain ⟨r, hm, hw⟩ := h
+  obtain ⟨i, hi⟩ := List.mem_iff_getElem?.1 hm
+  rcases C11_cleared_accounted hrun (.inr ⟨j, hpc⟩) hi hw with ⟨j', hj', hpos, _⟩ | h
+  · have := (inv_of_run evs s hrun).1.b3 t j hpc
+    rw [hj'] at this; cases this
+    exact .inl hpos
+  · exact .inr h
+
+/-- The P is never entered with a deadline that is not after time zero; the deadline is at most abs_deadline and
+    at most the expiry of every note of the call (state form of `C11_sleep_deadline`). -/
+theorem sleep_deadline_state {s : State} {t : Tid} (hr : Reachable s) (hp : atP s t) :
+    dlePast (s.fr t).min = false ∧ dle (s.fr t).min (s.fr t).dl
+    ∧ (∀ (i n : Nat), (s.fr t).objs[i]? = some (ObjId.note n) → dle (s.fr t).min (s.obj (.note n)).expiry)
+    ∧ ((s.fr t).min = (s.fr t).dl
+        ∨ ∃ k n : Nat, (s.fr t).objs[k]? = some (ObjId.note n) ∧ (s.fr t).min = (s.obj (.note n)).expiry) := by
+  obtain ⟨evs, hrun⟩ := hr
+  have hr : Reachable s := ⟨evs, hrun⟩
+  have ti := (inv_of_run evs s hrun).2 t
+  have hl := linv_of_reachable hr t
+  have htf := tf_of_reachable hr t
+  have key : dlePast (s.fr t).min = false ∧ scanned (s.pc t) (s.fr t) = some (s.fr t).count ∧ LoopF s (s.fr t) := by
+    rcases hp with h | ⟨j, h⟩ <;> rw [h] at hl htf ⊢ <;> exact ⟨hl.2, rfl, htf.2⟩
+  obtain ⟨hm, hsc, hlf⟩ := key
+  obtain ⟨h1, h2⟩ := ti.sd _ hsc hm
+  refine ⟨hm, h1, fun i n hn => h2 i n (lt_count_of_get hn) hn, ?_⟩
+  cases hw : (s.fr t).who with
+  | none => exact .inl (hlf.whoNone hw)
+  | some k =>
+    obtain ⟨n, hn, he⟩ := hlf.whoSome k hw hm
+    exact .inr ⟨k, n, hn, he⟩
+
+/-- Safety form of "it does not keep sleeping after one becomes ready" (disjuncts (A)–(E) of the header). -/
+theorem C11_no_oversleep {evs : List Event} {s : State} {t : Tid} {i : Nat} {r : Rid}
+    (hrun : run init evs = .ok s) (hp : atP s t) (hr : (s.fr t).recs[i]? = some r) (hrdy : becameReady s t i r) :
+    Tok s (binSem evs) t
+    ∨ InFlight s t
+    ∨ (∃ u c l, wk (s.pc u) = some (c, l) ∧ r ∈ pend (s.post u) l)
+    ∨ (∃ o u, (s.fr t).objs[i]? = some o ∧ o.isCv = false ∧ wakeable o (s.obj o) = true ∧ r ∈ (s.obj o).queue
+          ∧ (s.obj o).lock = some u)
+    ∨ expiredB (s.fr t).min s.now = true := by
+  have hreach : Reachable s := ⟨evs, hrun⟩
+  cases hw : (s.rcd r).waiting with
+  | false =>
+    rcases C11_cleared_accounted hrun hp hr hw with h | h
+    · exact .inl h
+    · exact .inr (.inl h)
+  | true =>
+    have hsl := inSleep_of_atP hp
+    have hc := inCall_of_inSleep hsl
+    have hil := inLoop_of_inSleep hsl (linv_of_reachable hreach t)
+    have own := own_of_reachable hreach
+    have q := (qinv_of_reachable hreach).qi
+    have hlive := (own.own t r hc hil.frees (List.mem_of_getElem? hr)).1
+    have hidx := own.idx t i r hc hil.frees hr
+    rcases q.q3 r hlive hw with hq | hpend
+    · -- still queued on its object
+      unfold becameReady at hrdy
+      rw [hidx] at hrdy
+      have held : ∀ o, (s.rcd r).obj = o → o.isCv = false → wakeable o (s.obj o) = true →
+          ∃ o u, (s.fr t).objs[i]? = some o ∧ o.isCv = false ∧ wakeable o (s.obj o) = true ∧ r ∈ (s.obj o).queue
+            ∧ (s.obj o).lock = some u := by
+        intro o ho hcv hwk
+        rw [ho] at hq hidx
+        have := q.q7 o hcv hwk (List.ne_nil_of_mem hq)
+        cases hlk : (s.obj o).lock with
+        | none => exact absurd hlk this
+        | some u => exact ⟨o, u, hidx, hcv, hwk, hq, hlk⟩
+      cases ho : (s.rcd r).obj with
+      | cv c => rw [ho] at hrdy hq; exact absurd hq hrdy
+      | ctr c =>
+        rw [ho] at hrdy
+        exact .inr (.inr (.inr (.inl (held _ ho rfl (by simpa [wakeable] using hrdy)))))
+      | note n =>
+        rw [ho] at hrdy hidx
+        rcases hrdy with hfl | hex
+        · exact .inr (.inr (.inr (.inl (held _ ho rfl (by simpa [wakeable] using hfl)))))
+        · exact .inr (.inr (.inr (.inr (expiredB_of_dle ((sleep_deadline_state hreach hp).2.2.1 i n hidx) hex))))
+    · exact .inr (.inr (.inl hpend))
+
+/-- `pd_enter` of the P of wait.c:78 is accepted only with the deadline `min_ntime` of the preceding scan, which
+    is after time zero, at most abs_deadline, at most the expiry of every note of the call, and equal to
+    abs_deadline or to the expiry of one of the notes. -/
+theorem C11_sleep_deadline {s s' : State} {t : Tid} {j : SemId} {d : Deadline} (hr : Reachable s)
+    (hpc : s.pc t = .wPdEnter) (hs : step s (.thr t (.pdEnter j d)) = .ok s') :
+    d = (s.fr t).min ∧ dlePast d = false ∧ dle d (s.fr t).dl
+    ∧ (∀ (i n : Nat), (s.fr t).objs[i]? = some (ObjId.note n) → dle d (s.obj (.note n)).expiry)
+    ∧ (d = (s.fr t).dl ∨ ∃ k n : Nat, (s.fr t).objs[k]? = some (ObjId.note n) ∧ d = (s.obj (.note n)).expiry) := by
+  have hd : d = (s.fr t).min := by
+    simp only [step, stepThr, hpc, stepPdEnter] at hs
+    split at hs
+    · assumption
+    · simp at hs
+  subst hd
+  exact ⟨rfl, sleep_deadline_state hr (.inl hpc)⟩
+
+/-- At the P, a cv record that is no longer on pcv->waiters has been unlinked by a signaller (ghost `unl`). -/
+theorem C11_cv_unlinked_by_waker {s : State} {t : Tid} {i c : Nat} {r : Rid} (hreach : Reachable s) (hp : atP s t)
+    (hr : (s.fr t).recs[i]? = some r) (ho : (s.fr t).objs[i]? = some (.cv c)) (hq : r ∉ (s.obj (.cv c)).queue) :
+    (s.rcd r).unl = .waker := by
+  have hsl := inSleep_of_atP hp
+  have hc := inCall_of_inSleep hsl
+  have hil := inLoop_of_inSleep hsl (linv_of_reachable hreach t)
+  have own := own_of_reachable hreach
+  have qi := qinv_of_reachable hreach
+  have ul := ulife_of_reachable hreach
+  have hlive := (own.own t r hc hil.frees (List.mem_of_getElem? hr)).1
+  have hidx := own.idx t i r hc hil.frees hr
+  rw [ho] at hidx
+  have hobj : (s.rcd r).obj = .cv c := (Option.some.inj hidx).symm
+  cases hw : (s.rcd r).waiting with
+  | true =>
+    rcases qi.qi.q3 r hlive hw with h | ⟨u, c', l, h1, h2⟩
+    · rw [hobj] at h; exact absurd h hq
+    · exact ul.pend u c' l r h1 h2
+  | false =>
+    cases hu : (s.rcd r).unl with
+    | waker => rfl
+    | none =>
+      exfalso
+      rcases ul.fresh t i r c hc hil.frees hr hobj hu with h | h
+      · rw [hw] at h; cases h
+      · rcases hp with hp | ⟨j, hp⟩ <;> rw [hp] at h <;> simp [freshAt] at h
+    | owner =>
+      exfalso
+      rcases ul.owner t i r c hc hil.frees hr hobj hu with h | h
+      · have := ((qi.cf t).dq hc hil.frees i r hr).1 h
+        rcases hp with hp | ⟨j, hp⟩ <;> rw [hp] at this <;> simp [dqIdx] at this
+      · rcases hp with hp | ⟨j, hp⟩ <;> rw [hp] at h <;> cases h
 
 /-! ### non-vacuity, and the interleaving of defect F3 before and after the repair -/
 
@@ -425,6 +625,123 @@ example : accepts (fixed ++ [.thr 0 (.retWaitN 1 false)]) = false := by decide
 example : accepts (fixed.dropLast.dropLast ++ [.thr 0 (.ld .acq (.waiting r0) .cvDeq 0)]) = false := by decide
 example : (final fixed).map (fun s => decide (s.pc 0 = .wRet 0 ∧ (s.fr 0).deqUnl = [.waker] ∧ (s.rcd r0).live = true
     ∧ s.post 1 = some r0)) = some true := by decide
+
+/-! #### no oversleep: each disjunct of `C11_no_oversleep` in an accepted trace -/
+
+/-- t: nsync_wait_n ([cv 0]) up to the end of the first scan: the next event of t is the `pd_enter` of the P -/
+def cvScan (t : Tid) (r : Rid) (dl : Deadline) (w : Nat) : List Event :=
+  [.thr t (.callWaitN none dl [.cv 0] false), .thr t (.st .rlx (.waiting r) .waitN 0 7)] ++ spin t 0 w
+  ++ [.thr t (.st .rlx (.waiting r) .cvEnq 1 0), .thr t (.st .rel (.cvWord 0) .cvEnq 2 (w + 1)),
+      .thr t (.ld .acq (.waiting r) .cvRT 1)]
+
+/-- the cv becomes ready for the caller BETWEEN its scan and its P.
+    (C): a signaller has unlinked the record under the spinlock and not yet cleared `waiting` -/
+def oversleepC : List Event := cvScan 0 r0 none 0 ++ sigUnlink 1
+/-- (B): it has cleared `waiting`; its next semaphore operation is the V -/
+def oversleepB : List Event := oversleepC ++ [.thr 1 (.st .rel (.waiting r0) .wake 0 1)]
+/-- (A): the V is done before the caller's `pd_enter`: the token waits for the P -/
+def oversleepA : List Event := oversleepB ++ [.thr 1 (.semV 5)]
+
+example : (final oversleepC).map (fun s => decide (s.pc 0 = .wPdEnter ∧ (s.fr 0).recs = [r0] ∧ r0 ∉ (s.obj (.cv 0)).queue
+    ∧ (s.rcd r0).waiting = true ∧ wk (s.pc 1) = some (0, [r0]) ∧ s.post 1 = none ∧ s.post 0 = none
+    ∧ (s.fr 0).sem = none)) = some true := by decide
+example : (final oversleepB).map (fun s => decide (s.pc 0 = .wPdEnter ∧ (s.rcd r0).waiting = false ∧ s.post 1 = some r0
+    ∧ (s.fr 0).sem = none ∧ s.sem 5 = 0)) = some true := by decide
+example : (final oversleepA).map (fun s => decide (s.pc 0 = .wPdEnter ∧ (s.fr 0).sem = some 5 ∧ s.sem 5 = 1 ∧ s.post 1 = none))
+    = some true := by decide
+example : binSem oversleepA 5 = true := by decide
+/-- the P returns at once (no tick), the next scan sees `waiting == 0`, the loop is left -/
+example : (final (oversleepA ++ [.thr 0 (.pdEnter 5 none), .thr 0 (.pdRet 5 false), .thr 0 (.ld .acq (.waiting r0) .cvRT 0)])).map
+    (fun s => decide (s.pc 0 = .wDeqCv 0 (.spin .ld) ∧ (s.fr 0).why = .readyAt 0 ∧ s.now = 0)) = some true := by decide
+/-- a P that returns 0 before the V is rejected, in (C) and in (B) -/
+example : accepts (oversleepC ++ [.thr 0 (.pdEnter 5 none), .thr 0 (.pdRet 5 false)]) = false := by decide
+example : accepts (oversleepB ++ [.thr 0 (.pdEnter 5 none), .thr 0 (.pdRet 5 false)]) = false := by decide
+/-- flavours: a second V (here from foreign code) is absorbed by a binary semaphore; after the P the counting
+    count is 1, the binary one 0, and the caller is scanning, not sleeping -/
+example : binSem (oversleepA ++ [.thr 2 (.semV 5), .thr 0 (.pdEnter 5 none), .thr 0 (.pdRet 5 false)]) 5 = false := by decide
+example : (final (oversleepA ++ [.thr 2 (.semV 5), .thr 0 (.pdEnter 5 none), .thr 0 (.pdRet 5 false)])).map
+    (fun s => decide (s.sem 5 = 1 ∧ s.pc 0 = .wCvRT 0)) = some true := by decide
+
+/-- t: nsync_wait_n ([note 0]) asleep in the P on semaphore 3 with deadline d (= the note's expiry `ex`, or none) -/
+def noteSleep (ex d : Deadline) : List Event :=
+  [.thr 9 (.newNote 0 ex), .thr 0 (.callWaitN none none [.note 0] false)] ++ nd 0 0 0
+  ++ [.thr 0 (.st .rlx (.waiting (.stk 0)) .waitN 0 5)] ++ noteEnq 0 0 (.stk 0) ++ nd 0 0 0 ++ [.thr 0 (.pdEnter 3 d)]
+
+/-- (D): the note is notified while the caller sleeps; the notifier holds note_mu and the record is still queued -/
+def oversleepD : List Event := noteSleep none none ++ lock 1 (.note 0) ++ [.thr 1 (.st .rel (.notified 0) .notify 1 0)]
+
+example : (final oversleepD).map (fun s => decide (s.pc 0 = .wPdWait 3 ∧ (s.obj (.note 0)).flag = true
+    ∧ Rid.stk 0 ∈ (s.obj (.note 0)).queue ∧ (s.obj (.note 0)).lock = some 1 ∧ (s.rcd (.stk 0)).waiting = true
+    ∧ s.sem 3 = 0 ∧ s.post 1 = none)) = some true := by decide
+/-- the notifier cannot release note_mu before it has woken the caller -/
+example : accepts (oversleepD ++ [.thr 1 (.unlockCall (.note 0))]) = false := by decide
+/-- … it pops the record, posts, unlocks; the P returns, the scan reads `notified` and the loop is left -/
+example : (final (oversleepD ++ [.thr 1 (.st .rel (.waiting (.stk 0)) .notify 0 1), .thr 1 (.semV 3)] ++ unlock 1 (.note 0)
+    ++ [.thr 0 (.pdRet 3 false), .thr 0 (.ld .acq (.notified 0) .noteND 1)])).map
+    (fun s => decide (s.pc 0 = .wND .deq 0 .ld0 ∧ (s.fr 0).why = .readyAt 0)) = some true := by decide
+
+/-- (E): lazy expiry.  Nobody notifies the note; its deadline 500 passes while the caller sleeps: the P was
+    called with that deadline (`C11_sleep_deadline`), so it times out -/
+def oversleepE : List Event := noteSleep (some 500) (some 500) ++ [.tick 500]
+
+example : (final oversleepE).map (fun s => decide (s.pc 0 = .wPdWait 3 ∧ (s.obj (.note 0)).flag = false
+    ∧ expiredB (s.obj (.note 0)).expiry s.now = true ∧ (s.obj (.note 0)).lock = none ∧ s.sem 3 = 0
+    ∧ (s.fr 0).min = some 500 ∧ expiredB (s.fr 0).min s.now = true)) = some true := by decide
+example : accepts (oversleepE ++ [.thr 0 (.pdRet 3 true)]) = true := by decide
+/-- the P of a call on a note with a deadline cannot be entered without that deadline -/
+example : accepts (noteSleep (some 500) none) = false := by decide
+example : accepts (noteSleep (some 500) (some 501)) = false := by decide
+
+/-! the hypotheses of `C11_no_oversleep` are satisfiable in states where no token is available -/
+
+theorem final_run {evs : List Event} {P : State → Bool} (h : (final evs).map P = some true) :
+    ∃ s, run init evs = .ok s ∧ P s = true := by
+  unfold final at h
+  split at h
+  · rename_i s hs
+    simp only [Option.map_some, Option.some.injEq] at h
+    exact ⟨s, hs, h⟩
+  · simp at h
+
+example : ∃ s, run init oversleepC = .ok s ∧ atP s 0 ∧ (s.fr 0).recs[0]? = some r0 ∧ becameReady s 0 0 r0
+    ∧ ¬ Tok s (binSem oversleepC) 0 := by
+  obtain ⟨s, hs, hp⟩ := final_run (evs := oversleepC) (P := fun s => decide (s.pc 0 = .wPdEnter ∧ (s.fr 0).recs[0]? = some r0
+    ∧ (s.fr 0).objs[0]? = some (ObjId.cv 0) ∧ r0 ∉ (s.obj (.cv 0)).queue ∧ (s.fr 0).sem = none)) (by decide)
+  simp only [decide_eq_true_eq] at hp
+  refine ⟨s, hs, .inl hp.1, hp.2.1, ?_, ?_⟩
+  · unfold becameReady; rw [hp.2.2.1]; exact hp.2.2.2.1
+  · rintro ⟨j, hj, _⟩; rw [hp.2.2.2.2] at hj; cases hj
+
+example : ∃ s, run init oversleepD = .ok s ∧ atP s 0 ∧ (s.fr 0).recs[0]? = some (Rid.stk 0) ∧ becameReady s 0 0 (.stk 0)
+    ∧ ¬ Tok s (binSem oversleepD) 0 := by
+  obtain ⟨s, hs, hp⟩ := final_run (evs := oversleepD) (P := fun s => decide (s.pc 0 = .wPdWait 3 ∧ (s.fr 0).recs[0]? = some (Rid.stk 0)
+    ∧ (s.fr 0).objs[0]? = some (ObjId.note 0) ∧ (s.obj (.note 0)).flag = true ∧ (s.fr 0).sem = some 3 ∧ s.sem 3 = 0)) (by decide)
+  simp only [decide_eq_true_eq] at hp
+  refine ⟨s, hs, .inr ⟨3, hp.1⟩, hp.2.1, ?_, ?_⟩
+  · unfold becameReady; rw [hp.2.2.1]; exact .inl hp.2.2.2.1
+  · rintro ⟨j, hj, hpos, _⟩
+    rw [hp.2.2.2.2.1] at hj; cases hj
+    rw [hp.2.2.2.2.2] at hpos; cases hpos
+
+example : ∃ s, run init oversleepE = .ok s ∧ atP s 0 ∧ (s.fr 0).recs[0]? = some (Rid.stk 0) ∧ becameReady s 0 0 (.stk 0)
+    ∧ ¬ Tok s (binSem oversleepE) 0 := by
+  obtain ⟨s, hs, hp⟩ := final_run (evs := oversleepE) (P := fun s => decide (s.pc 0 = .wPdWait 3 ∧ (s.fr 0).recs[0]? = some (Rid.stk 0)
+    ∧ (s.fr 0).objs[0]? = some (ObjId.note 0) ∧ expiredB (s.obj (.note 0)).expiry s.now = true ∧ (s.fr 0).sem = some 3
+    ∧ s.sem 3 = 0)) (by decide)
+  simp only [decide_eq_true_eq] at hp
+  refine ⟨s, hs, .inr ⟨3, hp.1⟩, hp.2.1, ?_, ?_⟩
+  · unfold becameReady; rw [hp.2.2.1]; exact .inr hp.2.2.2.1
+  · rintro ⟨j, hj, hpos, _⟩
+    rw [hp.2.2.2.2.1] at hj; cases hj
+    rw [hp.2.2.2.2.2] at hpos; cases hpos
+
+/-- … and those of `C11_sleep_deadline` -/
+example : ∃ s, Reachable s ∧ s.pc 0 = .wPdEnter
+    ∧ okB (step s (.thr 0 (.pdEnter 3 (some 500)))) = true ∧ okB (step s (.thr 0 (.pdEnter 3 none))) = false := by
+  obtain ⟨s, hs, hp⟩ := final_spec (evs := (noteSleep (some 500) (some 500)).dropLast) (P := fun s => decide (s.pc 0 = .wPdEnter
+    ∧ okB (step s (.thr 0 (.pdEnter 3 (some 500)))) = true ∧ okB (step s (.thr 0 (.pdEnter 3 none))) = false)) (by decide)
+  simp only [decide_eq_true_eq] at hp
+  exact ⟨s, hs, hp⟩
 
 end Example
 
